@@ -42,6 +42,24 @@ def is_normalised(fn: ast.AST, e: ast.AST, depth: int = 0) -> bool:
     return False
 
 
+def resolves_links(fn: ast.AST, e: ast.AST, depth: int = 0) -> bool:
+    """Is the path expression passed through os.path.realpath (the only normaliser that follows links on disk)?"""
+    if depth > 4:
+        return False
+    if isinstance(e, ast.Call):
+        cn = call_name(e) or ""
+        if cn == "os.path.realpath":
+            return True
+        if cn == "os.path.join" and e.args and all(isinstance(a, ast.Constant) and a.value == "" for a in e.args[1:]):
+            return resolves_links(fn, e.args[0], depth + 1)
+        if cn in ("os.path.normpath", "os.path.abspath") and e.args:
+            return resolves_links(fn, e.args[0], depth + 1)
+    if isinstance(e, ast.Name):
+        defs = local_defs(fn, e.id)
+        return bool(defs) and all(resolves_links(fn, d, depth + 1) for d in defs)
+    return False
+
+
 def mentions_source(fn: ast.AST, e: ast.AST, src_pred, depth: int = 0) -> bool:
     if depth > 4:
         return False
@@ -107,6 +125,11 @@ def containment_quality(fn: ast.AST, c: Containment, src_pred) -> Tuple[bool, st
         if not is_normalised(fn, a):
             return False, ("the path built from the untrusted name (%s) is compared without normalisation "
                            "(normpath/realpath/abspath): '..' segments pass the test" % short(a, 60))
+    for a in cand:
+        if not resolves_links(fn, a):
+            return False, ("the path built from the untrusted name (%s) is only normalised lexically (normpath/abspath): a name "
+                           "routed through a link that staging/deployment itself created in the destination (a ':link' "
+                           "reference, an earlier manifest entry) resolves outside and passes the test" % short(a, 60))
     if call_name(c.call) == "os.path.commonprefix":
         # character-wise: acceptable only if the base ends with a separator (join(x, ''))
         others = [a for a in args if a not in cand]
@@ -136,7 +159,8 @@ def run(ctx) -> None:
     ctx.rule("C18.R2-basename-destinations", "copy/link staging destinations are <working dir>/<basename of the source>")
     ctx.rule("C18.R3-manifest-keys", "os.path.join(target, <manifest key>) passes a normalising containment test before copytree/symlink")
     ctx.rule("C18.R4-error-type", "offending inputs are rejected with DataReferenceCouldNotStageError / PackageCreateError (or a manifest syntax error)")
-    ctx.assume("tarfile/shutil/os semantics are as documented; symlinks already present inside the target directory are out of scope")
+    ctx.assume("tarfile/shutil/os semantics are as documented; links inside the destination are in scope only as far as the "
+               "containment test must resolve them (realpath) - who created them is not analysed")
 
     d = ctx.repo.module(DATA)
     sr = d.func("StageReference")
@@ -275,7 +299,11 @@ def run(ctx) -> None:
                 dominated = True
         in_validate = any(containment_quality(mv, t, lambda n: isinstance(n, ast.Name) and n.id == "target")[0] for t in vtests) or bool(dotdot)
         ok = dominated or in_validate
-        why_bad = "; ".join(containment_quality(ep, t, key_pred)[1] for t in tests) or "only os.path.isabs is tested"
+        elsewhere = [t for t in containment_tests(ep) if mentions_source(ep, t.call, lambda n: isinstance(n, ast.Name))
+                     and not any(t.compare is x for x in ast.walk(lp))]
+        why_bad = "; ".join(containment_quality(ep, t, key_pred)[1] for t in tests) or (
+            "the only containment test of a manifest key is elsewhere (not on every path to this write, in the loop that "
+            "creates the entries: links created by earlier entries are not seen)" if elsewhere else "only os.path.isabs is tested")
         ctx.ob("C18.R3-manifest-keys", c, ok,
                "the joined manifest target passes a normalising containment test%s" % (" (in Manifest.validate)" if in_validate and not dominated else "") if ok else
                "%s writes to os.path.join(targetPath, <manifest key>) and %s: a key such as '../x' creates entries outside the "
